@@ -10,7 +10,8 @@ DIMS = {
     "a": ("aa", "i", ["i1", "i2"]),
     "b": ("bb", "s", ["sx", "sy"]),
     "c": ("cc", "s", ["sp", "sq"]),
-    "d": ("dd", "n", ["su", "sv", "sx"]),   # shares the item 'x' with b: ambiguous without a dict
+    "d": ("dd", "n", ["su", "sv", "sx", "sw"]),   # shares the item 'x' with b: ambiguous without a dict; four
+                                                  # items, so that sub-selections can be runs in another order
     "e": ("ee", "s", ["sm"]),               # single item
 }
 H = {l: i for i, l in enumerate("abcde")}
@@ -226,6 +227,11 @@ def gen_index(tier, seed):
             lines.append(f"getitem ${case.new()} $20 K:{l}=i:snope")
             bad = case.newdim(f"D:{SUBLETTER[l]}:{name}sub:{ty}:{its[0]},{'i99' if ty == 'i' else 'snope'}")
             lines.append(f"getitem ${case.new()} $20 K:{l}=d:${bad}")
+            # a list selector naming an item the dimension does not have: refused, nothing written
+            t = case.new()
+            lines.append(f"copy ${t} $20")
+            lines.append(f"setitem ${t} K:{l}=l:{its[0]},{'i99' if ty == 'i' else 'snope'} n:0"); stats["writes"] += 1
+            lines.append(f"dump ${t}")
             same = case.newdim(f"D:{l}:{name}sub:{ty}:{its[0]}")
             lines.append(f"getitem ${case.new()} $20 K:{l}=d:${same}")
             if len(order) > 1:
